@@ -68,7 +68,7 @@ func (e *Engine) runLemmas(prop string) []*Obligation {
 		}
 		u := &Unit{eng: e, name: "lemma/" + l.Name, declared: map[string]bool{}, assumptions: map[string]bool{}, uncontracted: map[string]bool{},
 			strLits: map[string]string{}, oblCount: map[string]int{}, loopOrd: map[ast.Stmt]string{}, callOrd: map[*ast.CallExpr]string{},
-			litOrd: map[*ast.FuncLit]int{}, allocd: map[string]bool{}, reached: map[string]bool{}, maxPaths: 10, entryHeld: map[string]bool{}}
+			litOrd: map[*ast.FuncLit]int{}, allocd: map[string]bool{}, allocT: map[string]types.Type{}, reached: map[string]bool{}, maxPaths: 10, entryHeld: map[string]bool{}}
 		u.pkg = e.pkgs[l.PkgPath]
 		u.floatIEEE = l.Flags["float_ieee"]
 		st := &State{env: map[types.Object]Value{}, heap: map[string]string{}, held: map[string]bool{}, lets: map[string]Value{}}
